@@ -149,6 +149,7 @@ def run(ctx):
     ctx.out.exhaustive = True
     check_names(ctx, "names-random", [rand_name(rng) for _ in range(20000 if ctx.thorough else 2000)])
     order_oracles(ctx, "order-clauses", rng, 3000 if ctx.thorough else 400)
+    long_names(ctx, 12 if ctx.thorough else 3)
     sets = []
     pool = ["SUPER_1", "SUPER_2", "SUPER_10", "SUPER_2_unloc_1", "SUPER_2_unloc_10", "SUPER_02", "SUPER_Z", "SUPER_W1", "I", "II", "IV", "V", "X",
             "scaffold_7", "H_1", "H_12", "a", "a1", "a01", "1a", "", "chrIII", "chrIV_2"]
@@ -160,6 +161,34 @@ def run(ctx):
     perm_check(ctx, "sort-permutations", sets)
     object_histories(ctx, 1500 if ctx.thorough else 250)
     unicode_names(ctx, 4000 if ctx.thorough else 600)
+
+
+def long_names(ctx, reps):
+    """the key has no bound on the number of tokens: names with 2 .. 1000 number / numeral tokens (every power of two and its
+    neighbours on the way), key compared with the model and "numbers compare by value" checked on the LAST token"""
+    from tola.assembly.assembly import Assembly
+    from tola.assembly.scaffold import Scaffold
+    rng, out = ctx.rng, ctx.out
+    counts = sorted({n + d for n in (2, 4, 8, 16, 32, 64, 128, 256, 512, 1000) for d in (-1, 0, 1)} | {3, 100, 300, 700})
+    names = []
+    for n in counts:
+        for _ in range(reps):
+            toks = []
+            for _i in range(n):
+                toks.append(rng.choice(["_", "a", "chr", "-", "."]))
+                toks.append(rng.choice([str(rng.randint(0, 99)), str(rng.randint(0, 9)).zfill(2), "I", "II", "III", "IV"]))
+            base = "".join(toks[:-1])
+            names.append(base + toks[-1])
+            inp = {"prefix_tokens": n, "prefix": base}
+            out.case("names-long", inp, ("long-order", n))
+            try:
+                a = Assembly("x", scaffolds=[Scaffold(base + "10"), Scaffold(base + "9"), Scaffold(base + "9_unloc_2"), Scaffold(base + "9_unloc_1")])
+                got = [x.name[len(base):] for x in a.scaffolds_sorted_by_name()]
+                if got != ["9", "9_unloc_1", "9_unloc_2", "10"]:
+                    out.oracle_fail("names-long", inp, f"embedded decimal numbers do not compare by value after {n} earlier tokens: {got}")
+            except Exception as e:
+                out.oracle_fail("names-long", inp, f"comparison raised {conv.errkind(e)}")
+    check_names(ctx, "names-long", names)
 
 
 def unicode_names(ctx, count):
